@@ -74,7 +74,7 @@ fn lehmer_guess(mut xbar: Word, mut ybar: Word) -> (Word, Word, Word, Word) {
         if r > COEFF_LIMIT || s > COEFF_LIMIT {
             break;
         }
-        if t < s || t + r > xbar - c {
+        if t < s || t + r > xbar - b {
             break;
         }
 
@@ -150,7 +150,7 @@ fn lehmer_guess_dword(mut xbar: DoubleWord, mut ybar: DoubleWord) -> (Word, Word
         if r > COEFF_LIMIT || s > COEFF_LIMIT {
             break;
         }
-        if t < s || t + r > xbar - c {
+        if t < s || t + r > xbar - b {
             break;
         }
 
